@@ -532,6 +532,47 @@ static long pgen_L6 (PgenCb cb, void *user, int classes)
       }
     }
   }
+  /* L6k: every plain opcode between two uses of function-wide cached constants.  shrub by a constant (a byte mask)
+   * and div255w (0x8081) make the compiler keep a constant in a register for the whole function; both are used before
+   * and again after the tested instruction, with 0 or 4 more temporaries live, so a scratch register the tested rule
+   * takes must not be one of them (the damage would show in the second use and in every later iteration) */
+  if (classes & PG_INT) {
+    int nf;
+    for (oi = 0; oi < v_nops; oi++) for (nf = 0; nf <= 4; nf += 4) {
+      const OrcStaticOpcode *o = &v_ops[oi];
+      int nsrc = op_nsrc (o);
+      VProg p;
+      int args[4], na = 0, i, k1, k2, u1, u2, e1, e2, c1, f[4];
+      if (o->flags & (ORC_STATIC_OPCODE_LOAD | ORC_STATIC_OPCODE_STORE)) continue;
+      if (op_is_float (o)) continue;
+      if (o->dest_size[1]) continue;	/* four destinations at most: the tested one and the two constant users' */
+      memset (&p, 0, sizeof (p));
+      if (o->flags & ORC_STATIC_OPCODE_ACCUMULATOR) args[na++] = vprog_addvar (&p, VK_A, o->dest_size[0]);
+      else args[na++] = vprog_addvar (&p, VK_D, o->dest_size[0]);
+      for (i = 0; i < nsrc; i++) {
+        if ((o->flags & ORC_STATIC_OPCODE_SCALAR) && i >= 1) {
+          int c = vprog_addvar (&p, VK_C, o->src_size[i]);
+          p.v[c].cval = op_is_shift (o) ? 3 : 2;
+          args[na++] = c;
+        } else args[na++] = vprog_addvar (&p, VK_S, o->src_size[i]);
+      }
+      k1 = vprog_addvar (&p, VK_S, 1); k2 = vprog_addvar (&p, VK_S, 2);
+      e1 = vprog_addvar (&p, VK_D, 1); e2 = vprog_addvar (&p, VK_D, 2);
+      u1 = vprog_addvar (&p, VK_T, 1); u2 = vprog_addvar (&p, VK_T, 2);
+      c1 = vprog_addvar (&p, VK_C, 1); p.v[c1].cval = 1;
+      for (i = 0; i < nf; i++) f[i] = vprog_addvar (&p, VK_T, 2);
+      vprog_addinsn (&p, "shrub", 0, 3, u1, k1, c1, -1);
+      vprog_addinsn (&p, "div255w", 0, 2, u2, k2, -1, -1);
+      for (i = 0; i < nf; i++) vprog_addinsn (&p, "copyw", 0, 2, f[i], k2, -1, -1);
+      vprog_addinsn (&p, o->name, 0, na, args[0], na > 1 ? args[1] : -1, na > 2 ? args[2] : -1, na > 3 ? args[3] : -1);
+      for (i = 0; i < nf; i++) vprog_addinsn (&p, "xorw", 0, 3, u2, u2, f[i], -1);
+      vprog_addinsn (&p, "shrub", 0, 3, e1, u1, c1, -1);
+      vprog_addinsn (&p, "div255w", 0, 2, e2, u2, -1, -1);
+      pg_name (&p, "L6k", count);
+      cb (&p, user);
+      count++;
+    }
+  }
   return count;
 }
 
